@@ -23,7 +23,8 @@ RULE = (
     "free entries interleaved, tables tiled exactly, stale key tables sharing an index (lower sequence numbers, "
     "different content, any position in the object table, up to 3 generations), both orderings of header sequence "
     "numbers, additional acyclic object tables, unallocated object entries. Oracle: as_dict() equals the generated "
-    "tree type-strictly (bitwise for doubles); navigation hf[k][k2].value; stale tables/headers never visible. "
+    "tree type-strictly (bitwise for doubles); navigation hf[k][k2].value, keys()/items()/values() of file and nodes, value_size, "
+    "file-object pointers and their content through read() and open(); stale tables/headers never visible. "
     "Non-trivial: >= 2 value types and >= 2 entries; distinct = (tree shape, distribution)."
 )
 ASSUMPTIONS = [
@@ -301,6 +302,40 @@ def run(case: dict, ctx) -> dict:
             if n1 != _get(want, p):
                 res["viol"].append({"what": "entry.value differs from the stored value", "mech": MECH, "detail": {"path": p, "got": str(n1)[:100]}})
         cnt["navigations"] = cnt.get("navigations", 0) + 1
+    # mapping-style API: keys()/items()/values() of the file and of nodes mirror the stored children
+    api = call(lambda: (sorted(hf.keys()), sorted(k_ for k_, _ in hf.items()), len(list(hf.values())), hf.version))
+    if not api.ok or api.value[0] != sorted(tree) or api.value[1] != sorted(tree) or api.value[2] != len(tree) or api.value[3] != 0x400:
+        res["viol"].append({"what": "keys()/items()/values()/version of the file differ from the stored root", "mech": MECH, "detail": {"got": api.brief() if not api.ok else str(api.value)[:200]}})
+    for p_ in rng.sample(paths, k=min(8, len(paths))):
+        sub = _get(tree, p_)
+        node = call(lambda: _nav(hf, p_))
+        if not node.ok:
+            continue
+        e_ = node.value
+        if isinstance(sub, dict):
+            kk = call(lambda: (sorted(e_.keys()), sorted(k_ for k_, _ in e_.items()), len(list(e_.values()))))
+            if not kk.ok or kk.value[0] != sorted(sub) or kk.value[1] != sorted(sub) or kk.value[2] != len(sub):
+                res["viol"].append({"what": "node keys()/items()/values() differ from the stored children", "mech": MECH, "detail": {"path": p_}})
+        else:
+            # sizes and file-object plumbing of leaf entries
+            if sub.file_object:
+                payload = sub.value.encode("utf-16-le") if sub.kind == "string" else bytes(sub.value)
+                # open(0) means "the whole (aligned) object" in the reader's API, so open() is only compared for non-empty payloads
+                fo = call(lambda: (e_.is_file_object_pointer, e_.file_object_pointer[1], e_.get_file_object().read(len(payload)),
+                                   e_.get_file_object().open(len(payload)).read() if payload else b""))
+                if not fo.ok or fo.value != (True, len(payload), payload, payload):
+                    res["viol"].append({"what": "file-object pointer / content differs from the stored payload", "mech": MECH,
+                                        "detail": {"path": p_, "got": fo.brief() if not fo.ok else str(fo.value[:2])}})
+                cnt["file_object_api_checks"] = cnt.get("file_object_api_checks", 0) + 1
+            else:
+                vs = call(lambda: (e_.value_size, e_.key, e_.is_file_object_pointer))
+                stored = {"int": 8, "uint": 8, "double": 8, "bool": 4}.get(sub.kind)
+                if stored is None:
+                    stored = len(sub.value.encode("utf-16-le")) if sub.kind == "string" else len(sub.value)
+                if not vs.ok or vs.value != (stored, p_[-1], False):
+                    res["viol"].append({"what": "value_size / key / pointer flag differ from the stored entry", "mech": MECH,
+                                        "detail": {"path": p_, "got": vs.brief() if not vs.ok else str(vs.value), "stored_size": stored}})
+        cnt["api_checks"] = cnt.get("api_checks", 0) + 1
     if fh.mutations:
         res["viol"].append({"what": "handle mutated", "mech": "c09.handle", "detail": {"m": fh.mutations[:3]}})
     nvals = _count(want)
@@ -318,6 +353,13 @@ def run(case: dict, ctx) -> dict:
     res["sample"] = {"entries": meta["entries"], "tables": ntables, "stale_generations": stale, "file_objects": meta["file_objects"],
                      "header_seqs": [s1, s2], "depth": _depth(tree), "some_leaves": [repr(v) for v in list(_leaves(tree))[:4]]}
     return res
+
+
+def _nav(hf, p):
+    node = hf
+    for k in p:
+        node = node[k]
+    return node
 
 
 def _leaves(t):
